@@ -3,14 +3,17 @@
 (* private key and from a private extended key, is printed as one JSON line; the harness replays each one on real       *)
 (* objects, observing the output of every call and what the subject holds afterwards.  ("encrypt" runs a slow KDF and    *)
 (* is exercised by a few listed histories instead.)                                                                      *)
-EXTENDS Leak, TLC, Json
+EXTENDS Leak, TLC, Json, SequencesExt
 CONSTANTS MaxLen
 VARIABLES s, hist, start
 vars == <<s, hist, start>>
 Init == start \in KeyKinds /\ s = NewKey(start) /\ hist = <<>>
 Next == /\ Len(hist) < MaxLen
-        /\ \E c \in CallsOf(s) \ {"encrypt"} : s' = Act({}, s, c).st /\ hist' = Append(hist, c)
+        /\ \E c \in CallsOf(s) \ ({"encrypt"} \cup (IF s.private THEN {"reflect"} ELSE {})) :
+              s' = Act({}, s, c).st /\ hist' = Append(hist, c)
         /\ UNCHANGED start
 Spec == Init /\ [][Next]_vars
+\* the argument space of the export calls: the harness walks through it, one combination per occurrence of the call
+ASSUME PrintT(<<"ARGS", ToJson([c \in CallsWithArgs |-> SetToSeq(ArgSpace(c))])>>)
 Emit == (Len(hist) = MaxLen) => PrintT(<<"HIST", ToJson([start |-> start, hist |-> hist])>>)
 =============================================================================
